@@ -38,6 +38,12 @@ the build list) executes nothing. *As written* `load` then returns the error wit
 the registry with `loaded = false` and later loaders wait for it for ever (D24); *fixed*, the error goes through
 `m.done(nil, err)`: `run` on a broken top frame → `fin err`.
 
+The condition variable is explicit: `asleep d` is `d.cond`'s notify list. `Wait` appends the goroutine (in the same critical
+section as the `!m.loaded` test), `done`'s `Broadcast` empties the list, and a goroutine in `sleep d` can run again only when it
+is no longer on the list; it then re-tests `m.loaded` (`for`) and waits again if needed. Two variants of the fixed code are
+kept as regression witnesses: `Signal` instead of `Broadcast` (only the head of the list is woken) and an unlocked
+`if !m.loaded { Lock; Wait }` (a wake-up between the test and the `Wait` is lost).
+
 Critical sections that contain no blocking operation are one atomic step. `mlock m` is `m.m` (a non-reentrant
 `sync.Mutex`): an operation that locks `m.m` is enabled only while nobody — the thread itself included — holds it.
 In the fixed version no step leaves a mutex held.
@@ -55,6 +61,9 @@ abbrev Tid := Nat
 inductive Version where
   | asWritten
   | fixed
+  /-- regression variants of the fixed code (never what the tree contains; each has a `…_counterexample`) -/
+  | signalDone       -- `done` calls `m.cond.Signal()` instead of `Broadcast()`
+  | unlockedCheck    -- `wait` tests `!m.loaded` without holding `m.m`, then locks and calls `Wait` once (`if`, not `for`)
 deriving DecidableEq, Repr
 
 inductive Res where
@@ -82,9 +91,10 @@ inductive PC where
   | setFound (d : Mod)                 -- `d` was found: about to top.setLoading(d)
   | enter (d : Mod)                    -- about to call d.wait(top)
   | walk (d : Mod) (cur : Option Mod)  -- in the chain walk of d.wait(top) with `loading = cur`
-  | check (d : Mod)                    -- as written only: holds d.m, at `for !m.loaded`
+  | check (d : Mod)                    -- as written: holds d.m, at `for !m.loaded`; `unlockedCheck` variant: has tested `!m.loaded`
+                                       -- without the mutex and is about to lock and `Wait`
   | wlock (d : Mod)                    -- fixed only: about to d.m.Lock() for the condition wait
-  | sleep (d : Mod)                    -- inside d.cond.Wait() (d.m released)
+  | sleep (d : Mod)                    -- inside d.cond.Wait() (d.m released); asleep while on `asleep d`, woken once taken off
   | unset (r : Res)                    -- loadModule is returning `r`: about to run the deferred top.setLoading(nil)
   | fin (r : Res)                      -- the body of the top frame ended with `r`: about to top.done(…)
   | finished                           -- the goroutine's loadModule(nil, root) returned
@@ -95,18 +105,20 @@ chain walk starts and advances — the facts that distinguish the two versions (
 with the source on every run). -/
 def waitShape : Version → List String
   | .asWritten => ["R.m.Lock", "defer R.m.Unlock", "if W!=nil { for loading!=nil }", "for !R.loaded { R.cond.Wait }", "return"]
-  | .fixed => ["if W!=nil { for loading!=nil }", "R.m.Lock", "defer R.m.Unlock", "for !R.loaded { R.cond.Wait }", "return"]
+  | .unlockedCheck => ["if W!=nil { for loading!=nil }", "if !R.loaded", "return"]
+  | _ => ["if W!=nil { for loading!=nil }", "R.m.Lock", "defer R.m.Unlock", "for !R.loaded { R.cond.Wait }", "return"]
 def walkFirst : Version → String
   | .asWritten => "receiver.loading"        -- `loading := m.loading` under m.m
-  | .fixed => "receiver.getLoading"         -- `loading := m.getLoading()`
+  | _ => "receiver.getLoading"              -- `loading := m.getLoading()`
 def walkNext : Version → String
   | .asWritten => "receiver.getLoading"     -- `loading = m.getLoading()`: re-locks m.m, which `wait` holds (D4)
-  | .fixed => "loading.getLoading"          -- `loading = loading.getLoading()`
+  | _ => "loading.getLoading"               -- `loading = loading.getLoading()`
 def envErrorPath : Version → String
   | .asWritten => "plain"                   -- `return nil, err` without `m.done(…)` (D24)
-  | .fixed => "done"                        -- `return m.done(nil, err)`
-def doneShape : List String :=
-  ["set R.data,R.err", "R.m.Lock", "set R.loaded", "R.m.Unlock", "R.cond.Broadcast", "return"]
+  | _ => "done"                             -- `return m.done(nil, err)`
+def doneShape : Version → List String
+  | .signalDone => ["set R.data,R.err", "R.m.Lock", "set R.loaded", "R.m.Unlock", "R.cond.Signal", "return"]
+  | _ => ["set R.data,R.err", "R.m.Lock", "set R.loaded", "R.m.Unlock", "R.cond.Broadcast", "return"]
 
 def upd {α : Type} (f : Nat → α) (i : Nat) (v : α) : Nat → α := fun x => if x = i then v else f x
 
@@ -119,6 +131,7 @@ structure State where
   loaded : Mod → Bool              -- m.loaded
   result : Mod → Res               -- m.err (meaningful once loaded)
   mlock : Mod → Option Tid         -- holder of m.m across steps (as written only)
+  asleep : Mod → List Tid          -- m.cond's notify list: the goroutines inside m.cond.Wait() that have not been woken
   stack : Tid → List Frame
   pc : Tid → PC
   -- ghost
@@ -129,7 +142,7 @@ structure State where
 
 def init (P : Project) : State :=
   { registry := fun _ => false, loading := fun _ => none, loaded := fun _ => false, result := fun _ => .ok,
-    mlock := fun _ => none, stack := fun _ => [],
+    mlock := fun _ => none, asleep := fun _ => [], stack := fun _ => [],
     pc := fun t => match P.roots[t]? with | some r => .call r | none => .finished,
     execs := fun _ => 0, clock := 0, ptime := fun _ => 0, ftime := fun _ => 0 }
 
@@ -147,6 +160,10 @@ def publish (s : State) (x d : Mod) : State :=
 
 def setPc (s : State) (t : Tid) (p : PC) : State := { s with pc := upd s.pc t p }
 
+/-- `m.cond.Wait()`: join `d.cond`'s notify list (still under `d.m`), release `d.m`, sleep -/
+def goSleep (s : State) (t : Tid) (d : Mod) : State :=
+  { s with asleep := upd s.asleep d (s.asleep d ++ [t]), pc := upd s.pc t (.sleep d) }
+
 /-- the step of thread `t`, if it has one (`none`: finished, or blocked on a mutex or a condition variable) -/
 def next (v : Version) (P : Project) (s : State) (t : Tid) : Option State :=
   match s.pc t with
@@ -159,7 +176,7 @@ def next (v : Version) (P : Project) (s : State) (t : Tid) : Option State :=
         -- `t, builtins, err := m.env(proj); if err != nil { … }`
         match v with
         | .asWritten => some { s with stack := upd s.stack t rest, pc := upd s.pc t (.unset .err) }  -- `return nil, err`: no done() (D24)
-        | .fixed => some (setPc s t (.fin .err))                                                      -- `return m.done(nil, err)`
+        | _ => some (setPc s t (.fin .err))                                                           -- `return m.done(nil, err)`
       else
       match f.todo with
       | [] => some (setPc s t (.fin .ok))
@@ -184,35 +201,50 @@ def next (v : Version) (P : Project) (s : State) (t : Tid) : Option State :=
       if (s.mlock d).isSome then none
       else some { s with mlock := upd s.mlock d (some t),
                          pc := upd s.pc t (match top s t with | some _ => .walk d (s.loading d) | none => .check d) }
-    | .fixed =>
+    | _ =>
       match top s t with
       | none => some (setPc s t (.wlock d))
       | some _ => if (s.mlock d).isSome then none else some (setPc s t (.walk d (s.loading d)))
   | .walk d cur =>
     match cur with
-    | none => some (setPc s t (match v with | .asWritten => .check d | .fixed => .wlock d))
+    | none => some (setPc s t (match v with | .asWritten => .check d | _ => .wlock d))
     | some c =>
       if top s t = some c then
         -- `loading == waiter`: return the cyclic-dependency error (as written: the deferred Unlock runs)
-        some { s with mlock := (match v with | .asWritten => upd s.mlock d none | .fixed => s.mlock),
+        some { s with mlock := (match v with | .asWritten => upd s.mlock d none | _ => s.mlock),
                       pc := upd s.pc t (.unset .cyc) }
       else
         match v with
         | .asWritten =>
           -- `loading = m.getLoading()`: locks d.m — held by this very thread since `enter`
           if (s.mlock d).isSome then none else some (setPc s t (.walk d (s.loading d)))
-        | .fixed =>
+        | _ =>
           -- `loading = loading.getLoading()`
           if (s.mlock c).isSome then none else some (setPc s t (.walk d (s.loading c)))
   | .check d =>
-    -- holding d.m: `for !m.loaded { m.cond.Wait() }`; Wait and the deferred Unlock both release d.m
-    some { s with mlock := upd s.mlock d none,
-                  pc := upd s.pc t (if s.loaded d then .unset (resOf s d) else .sleep d) }
+    match v with
+    | .unlockedCheck =>
+      -- the variant has tested `!m.loaded` WITHOUT the mutex; now `m.m.Lock(); m.cond.Wait()` whatever has happened since
+      if (s.mlock d).isSome then none else some (goSleep s t d)
+    | _ =>
+      -- as written, holding d.m: `for !m.loaded { m.cond.Wait() }`; Wait and the deferred Unlock both release d.m
+      let s1 := { s with mlock := upd s.mlock d none }
+      some (if s.loaded d then setPc s1 t (.unset (resOf s d)) else goSleep s1 t d)
   | .wlock d =>
     if (s.mlock d).isSome then none
-    else some (setPc s t (if s.loaded d then .unset (resOf s d) else .sleep d))
+    else
+      match v with
+      | .unlockedCheck => some (setPc s t (if s.loaded d then .unset (resOf s d) else .check d))
+      | _ =>
+        -- `m.m.Lock(); for !m.loaded { m.cond.Wait() }`: the test and the entry into the notify list are one critical section
+        some (if s.loaded d then setPc s t (.unset (resOf s d)) else goSleep s t d)
   | .sleep d =>
-    if s.loaded d && (s.mlock d).isNone then some (setPc s t (.unset (resOf s d))) else none
+    -- inside `m.cond.Wait()`: runs again only once a Broadcast/Signal has taken it off the notify list
+    if (s.asleep d).contains t || (s.mlock d).isSome then none
+    else
+      match v with
+      | .unlockedCheck => some (setPc s t (.unset (resOf s d)))          -- `if`: no re-test after the wake-up
+      | _ => some (if s.loaded d then setPc s t (.unset (resOf s d)) else goSleep s t d)   -- `for`: re-test, wait again
   | .unset r =>
     match s.stack t with
     | [] => some (setPc s t .finished)
@@ -228,6 +260,8 @@ def next (v : Version) (P : Project) (s : State) (t : Tid) : Option State :=
     | f :: rest =>
       if (s.mlock f.mod).isSome then none
       else some { s with loaded := upd s.loaded f.mod true, result := upd s.result f.mod r,
+                         -- `m.cond.Broadcast()` empties the notify list; the Signal variant wakes only its head
+                         asleep := upd s.asleep f.mod (match v with | .signalDone => (s.asleep f.mod).tail | _ => []),
                          ftime := upd s.ftime f.mod s.clock, clock := s.clock + 1,
                          stack := upd s.stack t rest, pc := upd s.pc t (.unset r) }
 
